@@ -11,6 +11,10 @@ PROP = dict(
         obl('C01.guderley.euler_lazarus', M,
             [T + 'guderley_euler_lazarus_partial', T + 'solvesAt_of_solvesG', T + 'fields_normal'],
             models=GUD, oracle=G.gud_pde_lazarus, tie=G.tie_models),
+        obl('C01.guderley.system_consistency', M,
+            [T + 'f_eq_g', T + 'f_eq_g_in_w', T + 'energy_integral_logderiv', T + 'energy_is_integral',
+             T + 'energy_integral_conserved', T + 'energy_leaves'],
+            models=['GudF', 'GudG', 'GudEnergy']),
         obl('C01.guderley.solver_time', M,
             [T + 'finding_guderley_solver_time', T + 'finding_guderley_solver_time_witness'],
             models=GUD, oracle=G.gud_pde_solver, finding=True),
@@ -19,7 +23,9 @@ PROP = dict(
     oracle_budget=0.4,
     scope='Guderley (partial): for ANY (V, C, R) solving the traced right-hand side ramsey.g (with the globals state sets) '
           'the fields assembled by the traced _run -> guderley_1d -> state chain satisfy mass, momentum and energy balance '
-          'in LAZARUS time, every real geometry, gamma, rho0, lambda; solve_ivp, eexp, get_shock_position are atoms. '
+          'in LAZARUS time, every real geometry, gamma, rho0, lambda; solve_ivp, eexp, get_shock_position are atoms.  The right-hand '
+          'side f used to find B is the same system as g (also in the variable w), and the adiabatic integral ramsey.energy '
+          'checks is a first integral of it. '
           'Finding: in the solver\'s own time argument t = 0.750024322 (t_L + 1) the equations are violated (velocities are '
           'returned per unit Lazarus time).',
 )
